@@ -97,6 +97,11 @@ func (r *Request) SetProcessedSuccess() {
 	r.inProcessMutex.Lock()
 	defer r.inProcessMutex.Unlock()
 
+	if r.state == requestProcessed {
+		// The verdict was already delivered; signalling twice would panic the wait group
+		return
+	}
+
 	r.result = requestSuccess
 	r.state = requestProcessed
 
@@ -107,6 +112,11 @@ func (r *Request) SetProcessedSuccess() {
 func (r *Request) SetProcessedTimeout() bool {
 	r.inProcessMutex.Lock()
 	defer r.inProcessMutex.Unlock()
+
+	if r.state == requestProcessed {
+		// The verdict was already delivered; signalling twice would panic the wait group
+		return false
+	}
 
 	r.result = requestTimeout
 	r.state = requestProcessed
